@@ -67,7 +67,64 @@ def describe(conj):
     return " && ".join(out)
 
 
+def fun_type_honest(P, res, rule="FUN-TYPE-HONEST"):
+    """the Fun type the checker builds for a lambda literal, and then compares against the expected type with is_subtype, must
+    list the parameter types the body was checked under (the types bound with set_binding): with any other list the
+    contravariant comparison of parameters is made on types the lambda does not have (`let f: Fun<(Int), Int> =
+    fun(s: String) { s.len() }` is accepted)."""
+    import json
+    from .. import mir as M2
+    from .. import dflow as D2
+    n = 0
+    for name in ("check_expr_", "infer_expr_"):
+        cands = [p_ for p_ in P.funcs if p_.startswith("checks::type_checker::TypeCheckVisitor") and p_.endswith("::" + name)]
+        if not cands:
+            raise M2.MissingAnchor("TypeCheckVisitor::" + name)
+        f = P.funcs[cands[0]]
+        for sw in D2.enum_switches(f):
+            if not sw["ety"].endswith("Expression_"):
+                continue
+            for tgt, names in sw["by_target"].items():
+                if "FunLiteral" not in names:
+                    continue
+                reg = D2.edge_dominated(f, sw["bb"], tgt)
+                binds, pushes = [], []
+                for b in sorted(reg):
+                    t = f.blocks[b]["term"]
+                    if t["t"] != "call":
+                        continue
+                    nm = M2.callee_name(t) or ""
+                    if nm.endswith("::set_binding") and len(t["args"]) > 2:
+                        binds.append((b, t))
+                    if nm.endswith("Vec::<T, A>::push") and "Vec<garden_type::Type>" in str((t.get("argtys") or [""])[0]).replace(" ", ""):
+                        pushes.append((b, t))
+
+                def base(op):
+                    r = f.root_of(op, through_named=True)
+                    for _ in range(3):
+                        if r[0] == "call" and (M2.callee_name(r[2]) or "").endswith("::clone") and r[2]["args"]:
+                            r = f.root_of(r[2]["args"][0], through_named=True)
+                    if r[0] == "place" and not r[1]["p"]:
+                        return ("local", r[1]["l"])
+                    if r[0] == "call":
+                        return ("call", r[1])
+                    return (r[0], json.dumps(r[1], sort_keys=True) if r[0] == "place" else "")
+                if not binds or not pushes:
+                    continue
+                bound = {base(t["args"][2]) for _, t in binds}
+                for b, t in pushes:
+                    n += 1
+                    key = "%s # FunLiteral # parameter type list" % cands[0].split("::")[-1]
+                    if base(t["args"][1]) in bound:
+                        res.ok(rule, key + ": the type pushed is the type the parameter was bound with")
+                    else:
+                        res.bad(rule, key, "%s builds the lambda's Fun type from parameter types other than the ones its body was checked under: the subtype test "
+                                "against the expected function type no longer sees the lambda's own parameter types" % cands[0].split("::")[-1], f.loc(t.get("span")))
+    res.floor(rule, "parameter-type pushes in the FunLiteral arms", n, 1)
+
+
 def run(ctx, res):
+    fun_type_honest(ctx.P, res)
     sh = ctx.shape
     fn = S.find_fn(sh, FILE, "is_subtype")
     params = [p["name"] for p in fn["params"]]
